@@ -6,6 +6,8 @@ functions they call (`str::split(char)`, `Enumerate`, `str::is_empty`, `str::as_
 `core::str::from_utf8`, `[&str]::join`, `str::to_string`) are outside Verus' dialect and are read
 through wrappers with assumed contracts over spec functions `split_on` / `join_with` defined here
 (listed in the trusted base)."""
+import re
+
 from vf.unit import Unit
 from . import common, acc
 
@@ -232,24 +234,31 @@ def build(repo):
     GP = (RQ, 'get_path')
     # R32: std string functions read through the wrappers above
     u.replace_in(SP, 'R32:str-split', r"path\.split\('/'\)", "str_split_char(path, '/')")
-    u.replace_in(SP, 'R32:enumerate-as-index', r'for \(i, s\) in segs\.enumerate\(\) \{', 'let mut i_next: usize = 0; while i_next < segs.len() { let i = i_next; let s = segs[i]; i_next = i_next + 1;')
+    u.replace_in(SP, 'R32:enumerate-as-index', r'for \(i, s\) in ((?:[^{}()]|\((?:[^()]|\([^()]*\))*\))+?)\s*\.enumerate\(\) \{',
+                 r'let segs_v = \1; let mut i_next: usize = 0; while i_next < segs_v.len() { let i = i_next; let s = segs_v[i]; i_next = i_next + 1;')
     u.replace_in(SP, 'R32:str-is_empty', r's\.is_empty\(\)', 'str_is_empty(s)')
     u.replace_in(SP, 'R32:str-as_bytes-to_vec', r's\.as_bytes\(\)\.to_vec\(\)', 'str_bytes_to_vec(s)')
     u.replace_in(GP, 'R32:from_utf8', r'core::str::from_utf8\(option\)', 'str_from_utf8(option)')
-    u.replace_in(GP, 'R32:join', r'vec\.join\("/"\)', "strs_join(&vec, '/')")
+    _gm = re.search(r'let mut (\w+) = Vec::new\(\);', u.text[u._fn_span(GP)[2]:u._fn_span(GP)[3]])
+    VEC = _gm.group(1) if _gm else 'vec'
+    u.replace_in(GP, 'R32:join', VEC + r'\.join\("/"\)', "strs_join(&%s, '/')" % VEC)
     u.replace_in(GP, 'R32:empty-string', r'""\.to_string\(\)', 'empty_string()')
-    u.before(SP, r'let segs =', '''        let ghost cleared = opts_view(self.message.options);
+    u.before(SP, r'let segs_v =', '''        let ghost cleared = opts_view(self.message.options);
         let ghost pieces = split_on(path@, '/');
-        proof { lemma_split_nonempty(path@, '/'); }''')
+        proof { lemma_split_nonempty(path@, '/'); }
+        ''')
     u.loop(SP, 0, '''            invariant
-                i_next <= segs@.len(), segs@.len() == pieces.len(), pieces.len() >= 1,
-                forall|j: int| 0 <= j < segs@.len() ==> (#[trigger] segs@[j])@ == pieces[j],
+                i_next <= segs_v@.len(), segs_v@.len() == pieces.len(), pieces.len() >= 1,
+                forall|j: int| 0 <= j < segs_v@.len() ==> (#[trigger] segs_v@[j])@ == pieces[j],
                 cleared.contains_key(11) ==> cleared[11].len() == 0,
                 opts_view(self.message.options) == path_view(cleared, kept(pieces, i_next as int)),
                 same_but_options(self.message, old(self).message), self.response == old(self).response, self.source == old(self).source,
-            decreases segs@.len() - i_next''')
-    u.before(SP, r'continue;', '''                proof { assert(kept(pieces, 1) =~= kept(pieces, 0)); }''')
-    u.at_block_end(SP, r'while i_next < segs\.len\(\)', '''            proof { lemma_kept_step(cleared, pieces, i as int); }''')
+            decreases segs_v@.len() - i_next''')
+    if re.search(r'(?<![A-Za-z0-9_])continue\s*;', u.text[u._fn_span(SP)[2]:u._fn_span(SP)[3]]):
+        u.before(SP, r'continue;', '''                proof { assert(kept(pieces, 1) =~= kept(pieces, 0)); }''')
+    u.at_block_end(SP, r'while i_next < segs_v\.len\(\)', '''            proof {
+                if i == 0 && s@.len() == 0 { assert(kept(pieces, 1) =~= kept(pieces, 0)); } else { lemma_kept_step(cleared, pieces, i as int); }
+            }''')
     u.body_end(SP, '''        proof {
             assert(kept(pieces, pieces.len() as int) =~= path_pieces(path@));
         }''')
@@ -261,26 +270,27 @@ def build(repo):
             forall|k: u16| k != 11 ==> opts_view(final(self).message.options).contains_key(k) == opts_view(old(self).message.options).contains_key(k)
                 && (opts_view(old(self).message.options).contains_key(k) ==> opts_view(final(self).message.options)[k] == opts_view(old(self).message.options)[k]),
             same_but_options(final(self).message, old(self).message), final(self).response == old(self).response, final(self).source == old(self).source''', props=PROPS)
-    u.loop(GP, 0, '''                    invariant
+    V = lambda t: t.replace('VEC0_', VEC + '0').replace('VECNAME_', VEC)
+    u.loop(GP, 0, V('''                    invariant
                         it.seq().len() == options@.len(),
                         forall|j: int| 0 <= j < it.seq().len() ==> *(#[trigger] it.seq()[j]) == options@[j],
-                        strs_view(vec@) == texts_of(vals_view(*options).take(it.index() as int)),''', iter_name='it')
-    u.loop_body_start(GP, 0, '''                    let ghost j0 = it.index() as int;
-                    let ghost vec0 = vec@;
-                    proof { assert(*option == options@[j0]); }''')
-    u.at_block_end(GP, r'for option in', '''                    proof {
+                        strs_view(VECNAME_@) == texts_of(vals_view(*options).take(it.index() as int)),'''), iter_name='it')
+    u.loop_body_start(GP, 0, V('''                    let ghost j0 = it.index() as int;
+                    let ghost VEC0_ = VECNAME_@;
+                    proof { assert(*option == options@[j0]); }'''))
+    u.at_block_end(GP, r'for option in', V('''                    proof {
                         let vv = vals_view(*options);
                         assert(vv[j0] == option@);
                         assert(vv.take(j0 + 1).drop_last() =~= vv.take(j0));
                         assert(vv.take(j0 + 1).last() == vv[j0]);
                         if utf8_text(option@) is Some {
-                            assert(strs_view(vec@) =~= strs_view(vec0).push(utf8_text(option@)->0));
+                            assert(strs_view(VECNAME_@) =~= strs_view(VEC0_).push(utf8_text(option@)->0));
                         } else {
-                            assert(vec@ == vec0);
+                            assert(VECNAME_@ == VEC0_);
                         }
-                    }''')
-    u.after(GP, r'let mut vec = Vec::new\(\);', '''                proof { assert(strs_view(vec@) =~= Seq::<Seq<char>>::empty()); assert(vals_view(*options).take(0) =~= Seq::<Seq<u8>>::empty()); }''')
-    u.before(GP, r'strs_join\(&vec', '''                proof { let vv = vals_view(*options); assert(vv.take(vv.len() as int) =~= vv); }''')
+                    }'''))
+    u.after(GP, V(r'let mut VECNAME_ = Vec::new\(\);'), V('''                proof { assert(strs_view(VECNAME_@) =~= Seq::<Seq<char>>::empty()); assert(vals_view(*options).take(0) =~= Seq::<Seq<u8>>::empty()); }'''))
+    u.before(GP, V(r'strs_join\(&VECNAME_'), V('''                proof { let vv = vals_view(*options); assert(vv.take(vv.len() as int) =~= vv); }'''))
     u.contract(GP, '''        ensures
             r@ == join_with(texts_of(if opts_view(self.message.options).contains_key(11) { opts_view(self.message.options)[11] } else { Seq::empty() }), '/')''', props=PROPS)
     for l in ['lemma_join_split', 'lemma_first_piece', 'lemma_path_roundtrip', 'theorem_get_path_after_set_path', 'lemma_texts_of_bytes', 'lemma_kept_step']:
